@@ -1094,3 +1094,55 @@ Proof.
   split; [unfold contig, WF; cbn; lia|]. split; [vm_compute; reflexivity|]. split; [reflexivity|].
   split; [split; [discriminate|cbn; lia]|]. eexists. repeat split; vm_compute; reflexivity.
 Qed.
+
+(** * seq.copy() keeps what every feature denotes *)
+
+Lemma copy_preserves_lemma v p hid s' : contig v -> 0 < vlen v -> zlen p = seq_len v ->
+  apply_op Fixed (mkS v p KDna hid) CopySliced = Ok s' ->
+  contig (sv s') /\ vlen (sv s') = vlen v /\ zlen (parent s') = seq_len (sv s') /\
+  parent_start (sv s') = parent_start v /\ parent_stop (sv s') = parent_stop v /\
+  is_reversed (sv s') = is_reversed v /\
+  forall f, denoted (parent s') (offset (sv s')) (parent_start v) (parent_stop v) f
+          = denoted p (offset v) (parent_start v) (parent_stop v) f.
+Proof.
+  intros Hc Hlen Hp H. pose proof Hc as (Hwf & Habs & Hoffv).
+  pose proof (seg_bounds v Hwf) as Hb0.
+  cbn [apply_op sv parent] in H.
+  pose proof (copy_sliced_lemma false v p Hwf Hp) as Hcs.
+  destruct (copy_sliced false v p) as [r sg] eqn:Ecs.
+  destruct Hcs as (v' & -> & Hwf' & Hz & Hval & Hlen' & Hoff & Hb).
+  destruct (Hb Hlen) as (Hlo & Hhi & Hdir).
+  rewrite Hoff in H. replace (0 =? 0) with true in H by reflexivity. rewrite andb_false_r in H.
+  injection H as <-. cbn [sv parent].
+  set (ao := parent_start v) in *.
+  set (v2 := if ao =? 0 then v' else _).
+  assert (Hv2 : v2 = with_off v' ao).
+  { subst v2. destruct (ao =? 0) eqn:E; [|reflexivity].
+    destruct v'; cbn in *. unfold with_off; cbn. f_equal. lia. }
+  rewrite Hv2. clear Hv2 v2.
+  assert (Hsg : sg = gather p (zr (seg_lo v) (seg_hi v)) /\ step v' = step v).
+  { unfold copy_sliced in Ecs. injection Ecs as Hr Hs. split.
+    - rewrite <- Hs, rich_seq_eq. apply seg_is_gather; lia.
+    - pose proof (wf_step_nz v Hwf) as Hnz.
+      destruct (mk_view_step_cases _ _ _ _ _ _ (zlen_nonneg _) Hnz Hr) as [E|E]; [exact E|].
+      pose proof (proj2 (wf_empty_iff v' Hwf') E). lia. }
+  destruct Hsg as (Hsg & Hstep).
+  assert (Hao : ao = offset v + seg_lo v) by (unfold ao, seg_lo; lia).
+  assert (Hps : parent_stop v = offset v + seg_hi v) by (unfold seg_hi; lia).
+  split.
+  { split; [|split].
+    - destruct Hwf' as (W1 & W2). unfold with_off, WF. cbn [start stop step seq_len offset]. split; assumption.
+    - unfold with_off. cbn [step]. rewrite Hstep. exact Habs.
+    - unfold with_off. cbn [offset]. lia. }
+  split; [unfold with_off, vlen; cbn [start stop step]; exact Hlen'|].
+  split; [unfold with_off; cbn [seq_len]; exact Hz|].
+  split; [rewrite with_off_start; lia|].
+  split; [rewrite with_off_stop; lia|].
+  split; [rewrite with_off_rev; unfold is_reversed; exact Hdir|].
+  - intros f. unfold denoted. unfold with_off at 1. cbn [offset].
+    assert (E : flat_map (residue sg ao) (filter (in_seg ao (parent_stop v)) (positions (f_spans f))) =
+                flat_map (residue p (offset v)) (filter (in_seg ao (parent_stop v)) (positions (f_spans f)))).
+    { apply flat_map_ext_in. intros x Hx. apply filter_In in Hx. destruct Hx as [_ Hx]. unfold in_seg in Hx.
+      unfold residue. rewrite Hsg. rewrite zget_gather_zr by lia. f_equal. lia. }
+    rewrite E. reflexivity.
+Qed.
